@@ -90,7 +90,7 @@ impl Prop for C01 {
         ]
     }
     fn cases(tier: Tier) -> u64 {
-        tier.pick(6000, 150_000)
+        tier.pick(20_000, 300_000)
     }
     fn strategy(tier: Tier) -> BoxedStrategy<Case> {
         gen::bw_case(tier, false).prop_map(make_case).boxed()
